@@ -178,6 +178,11 @@ func (b *ldbBatch) Put(key, value []byte) error {
 	return nil
 }
 
+func (b *ldbBatch) Delete(key []byte) error {
+	b.b.Delete(key)
+	return nil
+}
+
 func (b *ldbBatch) Write() error {
 	b.logger.Debugf("batchWrite. length: %d ", b.size)
 	verifOnWrite("batch", nil, b.size)
